@@ -58,8 +58,9 @@ func cmdVC(args []string) {
 	work := fs.String("work", "/verif/.work/dev", "work dir")
 	verbose := fs.Bool("v", false, "verbose")
 	extra := fs.String("contracts", "/verif/contracts", "directory with extra contract files (*.contracts)")
+	repo := fs.String("repo", "/repo", "repository root (a worktree of circl)")
 	fs.Parse(args)
-	e, err := newEngine("/repo", *config, strings.Split(*pkgs, ","))
+	e, err := newEngine(*repo, *config, strings.Split(*pkgs, ","))
 	if err != nil {
 		fmt.Fprintln(os.Stderr, err)
 		os.Exit(2)
